@@ -16,7 +16,9 @@ import (
 // C04, exchange-level sentence: one damage per exchange, on the request or on the
 // response, placed at the positions where peer-controlled bytes are parsed.
 
-var metaBytes = []string{"(", ")", ",", ":", "'", "%", "List(", "%2", "%ZZ", "\"", "{", "}", "[", "]", "\\", "$", "&", "=", "?", "/", "~", "\x00", "((", "))", "(:", ":)", ",,", "''", "%28", "%29", "null", "-", "e", "."}
+var metaBytes = []string{"(", ")", ",", ":", "'", "%", "List(", "%2", "%ZZ", "\"", "{", "}", "[", "]", "\\", "$", "&", "=", "?", "/", "~", "\x00", "((", "))", "(:", ":)", ",,", "''", "%28", "%29", "null", "-", "e", ".",
+	// appended later (indices of the earlier ones stay): delimiters that balance by count but close before they open
+	")(", "))((", ")a(", "(x:1))("}
 
 func damageBytes(b []byte, lo, hi int, tag string) ([]byte, string) {
 	if hi > len(b) {
@@ -26,7 +28,18 @@ func damageBytes(b []byte, lo, hi int, tag string) ([]byte, string) {
 		return b, ""
 	}
 	pos := lo + kern.Choose(hi-lo+1, tag+"-pos")
-	switch kern.Choose(5, tag+"-kind") {
+	switch kern.Choose(6, tag+"-kind") {
+	case 5: // transpose two bytes (a reordering proxy: "(a:1)" becomes ")a:1(" - balanced by count, wrong by order)
+		if pos >= hi {
+			pos = hi - 1
+		}
+		other := lo + kern.Choose(hi-lo, tag+"-swap")
+		if other == pos || b[other] == b[pos] {
+			return b, ""
+		}
+		out := append([]byte(nil), b...)
+		out[pos], out[other] = out[other], out[pos]
+		return out, fmt.Sprintf("swap@%d<->%d", pos-lo, other-lo)
 	case 0: // truncate
 		return append([]byte(nil), b[:pos]...), fmt.Sprintf("truncate@%d", pos-lo)
 	case 1: // insert a metacharacter
@@ -380,15 +393,33 @@ func unbalancedKeys(uri string) bool {
 	if i := strings.IndexByte(uri, '?'); i >= 0 {
 		path, query = uri[:i], uri[i+1:]
 	}
-	if strings.Count(path, "(") != strings.Count(path, ")") {
+	if badNesting(path) {
 		return true
 	}
 	for _, kv := range strings.Split(query, "&") {
-		if strings.HasPrefix(kv, "ids=") && strings.Count(kv, "(") != strings.Count(kv, ")") {
+		if strings.HasPrefix(kv, "ids=") && badNesting(kv) {
 			return true
 		}
 	}
 	return false
+}
+
+// badNesting: the literal parentheses of s (ROR2 escapes the ones that are content) do not nest: a count that differs, or
+// a ")" before the "(" it would close.
+func badNesting(s string) bool {
+	depth := 0
+	for i := 0; i < len(s); i++ {
+		switch s[i] {
+		case '(':
+			depth++
+		case ')':
+			depth--
+			if depth < 0 {
+				return true
+			}
+		}
+	}
+	return depth != 0
 }
 
 // takesBody: does the method read its request body at all? (An action without parameters ignores
